@@ -410,3 +410,44 @@ def N8(inp):
     cl['connect_and_disconnect_notifications_balance'] = (len(ev.conn) - len(ev.disc)) == (0 if failed else 1)
     cl['redialled_iff_failed'] = (len(sm.made) > n1) == failed
     return Res(cl, nontrivial=failed, obs=lambda: dict(kind=kind, state=state1, conn=len(ev.conn), disc=len(ev.disc), socks=len(sm.made)))
+
+
+@obligation('N9', props=('C14',), quick=[dict()], stubs=_STUBS + ('the send() on the established socket fails with ECONNRESET / EPIPE, or the peer has been silent for too long, or all is well (case split)',),
+            bounds='dialling side with an established connection; one transport.send() at a symbolic instant, the last dial being older or younger than connectionRetryTime (the re-dial inside the disconnect '
+                   'handler happens or not)')
+def N9(inp):
+    """truthful send() on the dialling side: when the connection dies inside send() - hard write error or read timeout - the
+    transport re-dials at once if it may, so the connection object is CONNECTING afterwards, not DISCONNECTED; send() still
+    answers False (the message was discarded) and the member is reported disconnected exactly once."""
+    import errno as _errno
+    now = inp.real('now', 0)
+    tr, fso, sm, clk, ev = _transport(inp, '10.0.0.9:5000', ['10.0.0.2:5000'], now, connectionRetryTime=5.0)
+    node = TCPNode('10.0.0.2:5000')
+    _, exc = guard(tr._onTick)
+    conn = tr._connections[node]
+    sock = sm.made[-1]
+    CODEC[0].lengths['10.0.0.9:5000'] = 20
+    _, exc = guard(getattr(conn, '_TcpConnection__processConnection'), 7, POLL_EVENT_TYPE.WRITE)      # connect completes, handshake goes out
+    established = conn.state == CONNECTION_STATE.CONNECTED
+    kind = ('ok', 'reset', 'epipe', 'silent')[inp.choice('fault', 4)]
+    later = (1.0, 6.0)[inp.choice('since_last_dial', 2)]           # below / above connectionRetryTime
+    clk.now = now + later
+    if kind in ('reset', 'epipe'):
+        def bad_send(buf):
+            e = realsocket.error()
+            e.errno = _errno.ECONNRESET if kind == 'reset' else _errno.EPIPE
+            raise e
+        sock.send = bad_send
+    if kind == 'silent':
+        setattr(conn, '_TcpConnection__timeout', 0.5)
+        setattr(conn, '_TcpConnection__lastReadTime', now)
+        setattr(conn, '_TcpConnection__lastSendTime', now + later - 0.1)       # it was being sent to all the time
+    nd0 = len(ev.disc)
+    CODEC[0].lengths[0] = inp.int('L0', 1, 1000)
+    res, exc2 = guard(tr.send, node, 0)
+    tc.socket = realsocket
+    failed = kind != 'ok'
+    cl = {'no_exception': exc is None and exc2 is None, 'was_established': established}
+    cl['send_result_truthful'] = (res is True) == (not failed)
+    cl['disconnect_notified_once_iff_lost'] = (len(ev.disc) - nd0) == (1 if failed else 0)
+    return Res(cl, nontrivial=failed, obs=lambda: dict(kind=kind, later=later, res=show(res), state=conn.state, disc=len(ev.disc) - nd0, socks=len(sm.made)))
